@@ -994,26 +994,26 @@ def run(ctx):
     quick = ctx.tier == 'quick'
     ndesigns = (len(DIRECTED) + 4) if quick else (len(DIRECTED) + 80)
     ncyc_max = 6 if quick else 12
-    max_model_nets = 320 if quick else 700
+    max_model_nets = 320 if quick else 500
     cases = []          # one per (design, form): shared dump + stimulus + spec
     spec_exprs = []
     model_exprs = []
     model_index = []    # (case index, list of (pass, reps))
     for i in range(ndesigns):
         forms = FORMS if i >= len(DIRECTED) else DIRECTED_FORMS[DIRECTED[i]]
-        for form in forms:
+        def one_case(form):
             rng = ctx.sub_rng('stim', i, form)
             # ---- one build per (design, form); the in-place passes are undone by restoring
             #      the block's net / wire sets (they never mutate nets or wire objects)
             try:
                 d, block = build(ctx, i, form)
-            except pyrtl.PyrtlError as e:
+            except Exception as e:      # a generator failure on one design must not abort the run
                 ctx.count('build_failed', type(e).__name__)
-                continue
+                return
             nnets0 = len(block.logic)
-            if nnets0 > (320 if quick else 700):
+            if nnets0 > (320 if quick else 500):
                 ctx.count('skipped', 'too-large (design %d %s: %d nets)' % (i, form, nnets0))
-                continue
+                return
             with quiet():
                 block.sanity_check()
             snap0 = snapshot(block)
@@ -1184,6 +1184,16 @@ def run(ctx):
                         nlx.zlist([dump.wid[w] for w in outs]), prs))
                 model_index.append(len(cases))
             cases.append(case)
+        for form in forms:
+            try:
+                one_case(form)
+            except Exception as e:      # a harness failure on one case must not abort the whole run
+                ctx.count('case_error', type(e).__name__)
+                ctx.notes.append('case (design %d, %s) raised in the harness: %s' % (i, form, traceback.format_exc()[-400:]))
+                del spec_exprs[len(cases):]
+                while model_index and model_index[-1] >= len(cases):
+                    model_index.pop()
+                    model_exprs.pop()
 
     jobs = 14
     import time as _time
